@@ -11,7 +11,9 @@ import (
 // the per-width forking of 64-bit varints bounded, all of them range over 0..127 (one encoded byte)
 // except the field named wide, which ranges over all of uint64 (ten encoded widths), or - with allWide -
 // every field ranges over 2^63..2^64-1 (all ten bytes wide). With concrete set, the uvarint fields are
-// fixed small constants (used by the truncation entries, where only the shape matters).
+// fixed small constants and so are all strings, digests and flags (used by the truncation entries: the
+// decoder keeps reading after a failed field, so symbolic content in a truncated message would be
+// re-parsed as varints at shifted offsets and fork on every byte).
 type c27RepGen struct {
 	wide     string
 	allWide  bool
@@ -67,12 +69,42 @@ func (g *c27RepGen) i64(name string) int64 {
 	return int64(zzsym.I8(name)) >> 1 // -64..63: one zig-zag byte
 }
 
-func c27RepDigest(name string) [32]byte {
+func (g *c27RepGen) digest(name string) [32]byte {
 	var d [32]byte
 	for i := range d {
-		d[i] = zzsym.U8(name)
+		d[i] = g.u8(name)
 	}
 	return d
+}
+
+func (g *c27RepGen) u8(name string) uint8 {
+	if g.concrete {
+		g.next++
+		return uint8(g.next*37 + 11)
+	}
+	return zzsym.U8(name)
+}
+
+func (g *c27RepGen) flag(name string) bool {
+	if g.concrete {
+		g.next++
+		return g.next%2 == 0
+	}
+	return zzsym.Bool(name)
+}
+
+func (g *c27RepGen) str(name string, n int) string {
+	if g.concrete {
+		return "xyz"[:n]
+	}
+	return zzsym.String(name, n)
+}
+
+func (g *c27RepGen) bytes(name string, n int) []byte {
+	if g.concrete {
+		return []byte("pqr"[:n])
+	}
+	return zzsym.Bytes(name, n)
 }
 
 func c27RepLen(name string) int {
@@ -85,14 +117,14 @@ func c27RepLen(name string) int {
 
 func (g *c27RepGen) manifest(p string) ch.ProposalManifest {
 	return ch.ProposalManifest{Version: g.u16(p + "version"), ChannelEpoch: g.u64(p + "channelEpoch"), LeaderTerm: g.u64(p + "leaderTerm"),
-		FenceVersion: g.u64(p + "fenceVersion"), CommandID: c27RepDigest(p + "commandID"), BaseOffset: g.u64(p + "baseOffset"), LastOffset: g.u64(p + "lastOffset"),
-		PreviousTerm: g.u64(p + "previousTerm"), PreviousIndex: g.u64(p + "previousIndex"), PreviousDigest: c27RepDigest(p + "previousDigest"), Digest: c27RepDigest(p + "digest")}
+		FenceVersion: g.u64(p + "fenceVersion"), CommandID: g.digest(p + "commandID"), BaseOffset: g.u64(p + "baseOffset"), LastOffset: g.u64(p + "lastOffset"),
+		PreviousTerm: g.u64(p + "previousTerm"), PreviousIndex: g.u64(p + "previousIndex"), PreviousDigest: g.digest(p + "previousDigest"), Digest: g.digest(p + "digest")}
 }
 
 func (g *c27RepGen) identity(p string) ch.EntryIdentity {
 	return ch.EntryIdentity{Version: g.u16(p + "version"), ChannelEpoch: g.u64(p + "channelEpoch"), LeaderTerm: g.u64(p + "leaderTerm"),
 		FenceVersion: g.u64(p + "fenceVersion"), Index: g.u64(p + "index"), PreviousTerm: g.u64(p + "previousTerm"), PreviousIndex: g.u64(p + "previousIndex"),
-		CommandID: c27RepDigest(p + "commandID"), PreviousDigest: c27RepDigest(p + "previousDigest"), Digest: c27RepDigest(p + "digest")}
+		CommandID: g.digest(p + "commandID"), PreviousDigest: g.digest(p + "previousDigest"), Digest: g.digest(p + "digest")}
 }
 
 func (g *c27RepGen) state(p string) ReplicaState {
@@ -100,12 +132,12 @@ func (g *c27RepGen) state(p string) ReplicaState {
 }
 
 func (g *c27RepGen) record(p string, strLen, payloadLen int) ch.Record {
-	r := ch.Record{ID: g.u64(p + "id"), Index: g.u64(p + "index"), Epoch: g.u64(p + "epoch"), Setting: zzsym.U8(p + "setting"),
-		FromUID: zzsym.String(p+"fromUID", strLen), ClientMsgNo: zzsym.String(p+"clientMsgNo", strLen), ServerTimestampMS: g.i64(p + "timestamp"),
-		SyncOnce: zzsym.Bool(p + "syncOnce"), SizeBytes: g.nonNegInt(p + "sizeBytes")}
+	r := ch.Record{ID: g.u64(p + "id"), Index: g.u64(p + "index"), Epoch: g.u64(p + "epoch"), Setting: g.u8(p + "setting"),
+		FromUID: g.str(p+"fromUID", strLen), ClientMsgNo: g.str(p+"clientMsgNo", strLen), ServerTimestampMS: g.i64(p + "timestamp"),
+		SyncOnce: g.flag(p + "syncOnce"), SizeBytes: g.nonNegInt(p + "sizeBytes")}
 	// the codec decodes every byte string with append([]byte(nil), ...): an empty payload comes back nil
 	if payloadLen > 0 {
-		r.Payload = zzsym.Bytes(p+"payload", payloadLen)
+		r.Payload = g.bytes(p+"payload", payloadLen)
 	}
 	return r
 }
@@ -187,7 +219,7 @@ func c27RepSameState(a, b ReplicaState) bool {
 // ---- ExchangeBatch (top level) with probe items ----
 
 func (g *c27RepGen) probeRequest(p string, strLen, indexShape int) ProbeRequest {
-	return ProbeRequest{ChannelKey: ch.ChannelKey(zzsym.String(p+"key", strLen)), ChannelID: ch.ChannelID{ID: zzsym.String(p+"id", strLen), Type: zzsym.U8(p + "type")},
+	return ProbeRequest{ChannelKey: ch.ChannelKey(g.str(p+"key", strLen)), ChannelID: ch.ChannelID{ID: g.str(p+"id", strLen), Type: g.u8(p + "type")},
 		Leader: ch.NodeID(g.u64(p + "leader")), Follower: ch.NodeID(g.u64(p + "follower")), Indexes: g.indexes(p+"index", indexShape)}
 }
 
@@ -253,8 +285,7 @@ func Harness_C27_RepProbeBatch() {
 }
 
 // Harness_C27_RepProbeBatchTruncated: every strict prefix of an encoded probe batch (one item with strings
-// 1..2 and indexes nil/empty/1/2, or two items of fixed shape; integer fields fixed one-byte constants,
-// string bytes symbolic) is rejected.
+// 1..2 and indexes nil/empty/1/2, or two items of fixed shape; concrete field values) is rejected.
 func Harness_C27_RepProbeBatchTruncated() {
 	g := &c27RepGen{concrete: true}
 	batch := ExchangeBatch{Version: ExchangeVersion, Priority: ExchangePriorityForeground}
@@ -277,9 +308,9 @@ func Harness_C27_RepProbeBatchTruncated() {
 // ---- request / result bodies (the encoder and decoder functions the batch codecs are made of) ----
 
 func (g *c27RepGen) replicateRequest(strLen, recordShape, payloadLen int) ReplicateRequest {
-	return ReplicateRequest{ChannelKey: ch.ChannelKey(zzsym.String("key", strLen)), ChannelID: ch.ChannelID{ID: zzsym.String("id", strLen), Type: zzsym.U8("type")},
+	return ReplicateRequest{ChannelKey: ch.ChannelKey(g.str("key", strLen)), ChannelID: ch.ChannelID{ID: g.str("id", strLen), Type: g.u8("type")},
 		Leader: ch.NodeID(g.u64("leader")), Follower: ch.NodeID(g.u64("follower")), Manifest: g.manifest("manifest."),
-		Records: g.records("record.", recordShape, strLen, payloadLen), Committed: g.u64("committed"), ServerAllocatedMessageIDs: zzsym.Bool("serverAllocated")}
+		Records: g.records("record.", recordShape, strLen, payloadLen), Committed: g.u64("committed"), ServerAllocatedMessageIDs: g.flag("serverAllocated")}
 }
 
 // c27RepCut returns a prefix length in [0,n), every value explored, at most 32 alternatives per choice.
@@ -291,15 +322,45 @@ func c27RepCut(n int) int {
 	return cut
 }
 
+// c27RepLongCut: prefix lengths for the ~1 KB batch result. thorough: every length; quick: every length in
+// the first and last 48 bytes and every 4th in between (the middle is a fixed sequence of one-byte varints
+// and 32-byte digests).
+func c27RepLongCut(n int) int {
+	if zzsym.Thorough() {
+		return c27RepCut(n)
+	}
+	if n < 96 {
+		return c27RepCut(n)
+	}
+	mid := (n - 96 + 3) / 4
+	total := 48 + mid + 48
+	hi := zzsym.Choice("cut.hi", (total+31)/32)
+	lo := zzsym.Choice("cut.lo", 32)
+	idx := hi*32 + lo
+	zzsym.Assume(idx < total)
+	switch {
+	case idx < 48:
+		return idx
+	case idx < 48+mid:
+		return 48 + (idx-48)*4
+	}
+	return n - 48 + (idx - 48 - mid)
+}
+
 // Harness_C27_RepReplicateRequest: appendReplicateRequest / exchangeCursor.replicateRequest round trip
 // (the top-level batch codec additionally demands ReplicateRequest.Valid(), i.e. a SHA-256 sealed
 // manifest, which is property C05's subject; the body codec is exercised directly). Scenarios: 0 = shapes
 // (strings 0..2, records nil/empty/one, payload 0..2), 1 = Manifest.ChannelEpoch over all of uint64,
-// 2 = record timestamp over all of int64 (zig-zag varint), 3 = every integer ten bytes wide.
+// 2 = record timestamp over all of int64 (zig-zag varint), 3 (thorough only; quick has this case in
+// Harness_C27_RepProbeBatch) = every integer ten bytes wide.
 func Harness_C27_RepReplicateRequest() {
 	g := &c27RepGen{}
 	strLen, recordShape, payloadLen := 1, 2, 1
-	switch zzsym.Choice("scenario", 4) {
+	scenarios := 3
+	if zzsym.Thorough() {
+		scenarios = 4
+	}
+	switch zzsym.Choice("scenario", scenarios) {
 	case 0:
 		strLen, recordShape, payloadLen = c27RepLen("str.len"), zzsym.Choice("records", 3), zzsym.Choice("payload.len", 3)
 		if recordShape != 2 {
@@ -326,7 +387,7 @@ func Harness_C27_RepReplicateRequest() {
 }
 
 // Harness_C27_RepReplicateRequestTruncated: no strict prefix of a replicate request body decodes
-// (integer fields fixed constants; strings, digests, flags symbolic).
+// (concrete field values, every prefix length).
 func Harness_C27_RepReplicateRequestTruncated() {
 	g := &c27RepGen{concrete: true}
 	in := g.replicateRequest(1, 2, 2)
@@ -339,7 +400,7 @@ func Harness_C27_RepReplicateRequestTruncated() {
 }
 
 func (g *c27RepGen) fetchRequest(strLen int) FetchRequest {
-	return FetchRequest{ChannelKey: ch.ChannelKey(zzsym.String("key", strLen)), ChannelID: ch.ChannelID{ID: zzsym.String("id", strLen), Type: zzsym.U8("type")},
+	return FetchRequest{ChannelKey: ch.ChannelKey(g.str("key", strLen)), ChannelID: ch.ChannelID{ID: g.str("id", strLen), Type: g.u8("type")},
 		Leader: ch.NodeID(g.u64("leader")), Follower: ch.NodeID(g.u64("follower")), Expected: g.state("expected."), From: g.u64("from"), Through: g.u64("through"),
 		Previous: g.identity("previous."), MaxBytes: g.nonNegInt("maxBytes")}
 }
@@ -382,18 +443,18 @@ func Harness_C27_RepFetchRequest() {
 
 func (g *c27RepGen) itemResult(strLen, entryShape, proposalShape, recordShape int) ExchangeItemResult {
 	r := ExchangeItemResult{RequestID: g.u64("requestID")}
-	r.Replicate = ReplicateResult{Status: ReplicateStatus(zzsym.U8("status")), LastOffset: g.u64("lastOffset"), NeedFrom: g.u64("needFrom"),
-		Proof: ReplicateProof{ChannelKey: ch.ChannelKey(zzsym.String("rp.key", strLen)), ChannelID: ch.ChannelID{ID: zzsym.String("rp.id", strLen), Type: zzsym.U8("rp.type")},
+	r.Replicate = ReplicateResult{Status: ReplicateStatus(g.u8("status")), LastOffset: g.u64("lastOffset"), NeedFrom: g.u64("needFrom"),
+		Proof: ReplicateProof{ChannelKey: ch.ChannelKey(g.str("rp.key", strLen)), ChannelID: ch.ChannelID{ID: g.str("rp.id", strLen), Type: g.u8("rp.type")},
 			Leader: ch.NodeID(g.u64("rp.leader")), Follower: ch.NodeID(g.u64("rp.follower")), Manifest: g.manifest("rp.manifest.")}}
-	r.Probe = ProbeResult{Proof: ProbeProof{ChannelKey: ch.ChannelKey(zzsym.String("pp.key", strLen)), ChannelID: ch.ChannelID{ID: zzsym.String("pp.id", strLen), Type: zzsym.U8("pp.type")},
+	r.Probe = ProbeResult{Proof: ProbeProof{ChannelKey: ch.ChannelKey(g.str("pp.key", strLen)), ChannelID: ch.ChannelID{ID: g.str("pp.id", strLen), Type: g.u8("pp.type")},
 		Leader: ch.NodeID(g.u64("pp.leader")), Follower: ch.NodeID(g.u64("pp.follower")), Indexes: g.indexes("pp.index", entryShape)}, State: g.state("ps.")}
 	switch entryShape {
 	case 1:
 		r.Probe.Entries = []EntryProbe{}
 	case 2, 3:
-		r.Probe.Entries = []EntryProbe{{Index: g.u64("entry.index"), Present: zzsym.Bool("entry.present"), Identity: g.identity("entry.identity.")}}
+		r.Probe.Entries = []EntryProbe{{Index: g.u64("entry.index"), Present: g.flag("entry.present"), Identity: g.identity("entry.identity.")}}
 	}
-	r.Fetch = FetchResult{Proof: FetchProof{ChannelKey: ch.ChannelKey(zzsym.String("fp.key", strLen)), ChannelID: ch.ChannelID{ID: zzsym.String("fp.id", strLen), Type: zzsym.U8("fp.type")},
+	r.Fetch = FetchResult{Proof: FetchProof{ChannelKey: ch.ChannelKey(g.str("fp.key", strLen)), ChannelID: ch.ChannelID{ID: g.str("fp.id", strLen), Type: g.u8("fp.type")},
 		Leader: ch.NodeID(g.u64("fp.leader")), Follower: ch.NodeID(g.u64("fp.follower")), Expected: g.state("fp.expected."), From: g.u64("fp.from"), Through: g.u64("fp.through"),
 		Previous: g.identity("fp.previous."), MaxBytes: g.nonNegInt("fp.maxBytes")}, State: g.state("fs.")}
 	switch proposalShape {
@@ -474,14 +535,221 @@ func Harness_C27_RepBatchResult() {
 }
 
 // Harness_C27_RepBatchResultTruncated: every strict prefix of an encoded batch result (one item with one
-// probe entry and one proposal of one record; integers fixed constants; strings, digests, flags symbolic).
+// probe entry and one proposal of one record; concrete field values; prefix lengths per c27RepLongCut).
 func Harness_C27_RepBatchResultTruncated() {
 	g := &c27RepGen{concrete: true}
 	in := ExchangeBatchResult{Version: ExchangeVersion, Items: []ExchangeItemResult{g.itemResult(1, 3, 2, 2)}}
 	enc, err := EncodeExchangeBatchResult(in)
 	zzsym.Assert(err == nil, "well-formed batch result refused before truncation")
-	tr, terr := DecodeExchangeBatchResult(enc[:c27RepCut(len(enc))])
+	tr, terr := DecodeExchangeBatchResult(enc[:c27RepLongCut(len(enc))])
 	zzsym.Reach("batch-result-truncated")
 	zzsym.Assert(terr != nil, "truncated batch result accepted")
 	zzsym.Assert(tr.Version == 0 && tr.Items == nil, "rejected batch result returns values")
+}
+
+// ---- cursor primitives at full width ----
+
+// Harness_C27_RepPrimitives: every exchangeCursor primitive on arbitrary bytes (fixed32 on 0/31/32/33
+// bytes): a failed read returns the zero value (and, for uvarint/varint/byte/fixed32, consumes nothing), a
+// successful read stays inside the input, counts never exceed their declared maximum, byte strings are
+// copies of exactly the declared length.
+func Harness_C27_RepPrimitives() {
+	kind := zzsym.Choice("primitive", 9)
+	// quick: varints up to 12 bytes (the 10-byte overflow rule is reachable), counts/bytes/booleans up to 4,
+	// byte strings up to 6; thorough: 28 for all; offset 0 (thorough: 0 or 1)
+	max := []int{12, 12, 4, 4, 2, 2, 6, 6, 0}[kind]
+	start := 0
+	if zzsym.Thorough() {
+		max = 28
+		start = zzsym.Choice("offset", 2)
+	}
+	n := 0
+	if kind == 8 {
+		n = []int{0, 31, 32, 33}[zzsym.Choice("len32", 4)]
+	} else {
+		n = zzsym.Choice("len", max+1)
+	}
+	data := zzsym.Bytes("data", n)
+	zzsym.Assume(start <= n)
+	c := exchangeCursor{data: data, offset: start}
+	rest := n - start
+	switch kind {
+	case 0:
+		v, ok := c.uvarint()
+		zzsym.Reach("prim-uvarint")
+		used := c.offset - start
+		zzsym.Assert(ok == (used > 0) && used >= 0 && used <= 10 && used <= rest, "uvarint consumed bytes out of range")
+		zzsym.Assert(ok || v == 0, "failed uvarint returns a value")
+		if ok && used == 1 {
+			zzsym.Assert(v == uint64(data[start]) && data[start] < 0x80, "one-byte uvarint value")
+		}
+		zzsym.Observe("uvarint", v, uint64(used))
+	case 1:
+		v, ok := c.varint()
+		zzsym.Reach("prim-varint")
+		used := c.offset - start
+		zzsym.Assert(ok == (used > 0) && used >= 0 && used <= 10 && used <= rest, "varint consumed bytes out of range")
+		zzsym.Assert(ok || v == 0, "failed varint returns a value")
+	case 2:
+		v, ok := c.count(MaxExchangeBatchItems)
+		zzsym.Reach("prim-count")
+		zzsym.Assert(v >= 0 && v <= MaxExchangeBatchItems, "count above its declared maximum")
+		zzsym.Assert(ok || v == 0, "failed count returns a value")
+		zzsym.Assert(c.offset-start <= rest, "count read past the input")
+	case 3:
+		v, isNil, ok := c.sliceCount(maxRecoveryProbeIndexes)
+		zzsym.Reach("prim-slicecount")
+		zzsym.Assert(v >= 0 && v <= maxRecoveryProbeIndexes, "slice count above its declared maximum")
+		zzsym.Assert(ok || (v == 0 && !isNil), "failed slice count returns a value")
+		zzsym.Assert(!isNil || v == 0, "nil slice with a count")
+	case 4:
+		v, ok := c.byte()
+		zzsym.Reach("prim-byte")
+		zzsym.Assert(ok == (rest > 0) && (!ok || (v == data[start] && c.offset == start+1)) && (ok || (v == 0 && c.offset == start)), "byte read")
+	case 5:
+		v, ok := c.boolean()
+		zzsym.Reach("prim-boolean")
+		zzsym.Assert(ok == (rest > 0 && data[start] <= 1), "boolean accepts exactly 0 and 1")
+		zzsym.Assert(!ok || v == (data[start] == 1), "boolean value")
+	case 6:
+		v, ok := c.bytes()
+		zzsym.Reach("prim-bytes")
+		used := c.offset - start
+		if ok {
+			zzsym.Reach("prim-bytes-ok")
+			zzsym.Assert(used >= 1 && used <= rest && len(v) <= used-1 && len(v) <= rest, "byte string longer than the remaining input")
+			zzsym.Assert(c27RepSameBytes(v, data[c.offset-len(v):c.offset]), "byte string is not a copy of the input segment")
+		} else {
+			zzsym.Assert(v == nil, "failed byte string returns a value")
+		}
+	case 7:
+		v, ok := c.string()
+		zzsym.Reach("prim-string")
+		zzsym.Assert(ok || v == "", "failed string returns a value")
+		zzsym.Assert(len(v) <= rest && c.offset <= n, "string longer than the remaining input")
+	default:
+		v, ok := c.fixed32()
+		zzsym.Reach("prim-fixed32")
+		zzsym.Assert(ok == (rest >= 32), "fixed32 needs exactly 32 bytes")
+		if ok {
+			zzsym.Assert(c.offset == start+32 && v[0] == data[start] && v[31] == data[start+31], "fixed32 copies the next 32 bytes")
+		} else {
+			zzsym.Assert(c.offset == start && v == [32]byte{}, "failed fixed32 consumes or returns something")
+		}
+	}
+}
+
+// Harness_C27_RepPrimitiveRoundTrip: append* / cursor round trips at full width: uvarint over all of
+// uint64, zig-zag varint over all of int64, slice counts over 0..2^40 with the nil flag (accepted exactly
+// up to the declared maximum), booleans, strings and byte strings of 0..2 bytes; every strict prefix of a
+// uvarint/varint/string encoding fails to decode.
+func Harness_C27_RepPrimitiveRoundTrip() {
+	switch zzsym.Choice("primitive", 5) {
+	case 0:
+		v := zzsym.U64("v")
+		enc := appendCodecUvarint(nil, v)
+		c := exchangeCursor{data: enc}
+		got, ok := c.uvarint()
+		zzsym.Reach("rt-uvarint")
+		zzsym.Assert(ok && got == v && c.offset == len(enc), "uvarint differs after round trip")
+		t := exchangeCursor{data: enc[:zzsym.Choice("cut", len(enc))]}
+		_, tok := t.uvarint()
+		zzsym.Assert(!tok && t.offset == 0, "truncated uvarint accepted")
+		zzsym.Observe("rtuvarint", got, uint64(len(enc)))
+	case 1:
+		v := zzsym.I64("v")
+		enc := append([]byte(nil), appendVarintForC27(v)...)
+		c := exchangeCursor{data: enc}
+		got, ok := c.varint()
+		zzsym.Reach("rt-varint")
+		zzsym.Assert(ok && got == v && c.offset == len(enc), "varint differs after round trip")
+		t := exchangeCursor{data: enc[:zzsym.Choice("cut", len(enc))]}
+		_, tok := t.varint()
+		zzsym.Assert(!tok && t.offset == 0, "truncated varint accepted")
+	case 2:
+		count := zzsym.Int("count")
+		isNil := zzsym.Bool("nil")
+		zzsym.Assume(count >= 0 && count <= 1<<40)
+		enc := appendCodecSliceCount(nil, count, isNil)
+		c := exchangeCursor{data: enc}
+		got, gotNil, ok := c.sliceCount(maxRecoveryProbeIndexes)
+		zzsym.Reach("rt-slicecount")
+		zzsym.Assert(ok == (isNil || count <= maxRecoveryProbeIndexes), "slice count accepted iff within the declared maximum")
+		if ok {
+			zzsym.Assert(gotNil == isNil && (isNil || got == count) && c.offset == len(enc), "slice count differs after round trip")
+		}
+	case 3:
+		v := zzsym.Bool("v")
+		c := exchangeCursor{data: appendCodecBool(nil, v)}
+		got, ok := c.boolean()
+		zzsym.Reach("rt-bool")
+		zzsym.Assert(ok && got == v && c.offset == 1, "boolean differs after round trip")
+	default:
+		n := c27RepLen("len")
+		v := zzsym.String("v", n)
+		enc := appendCodecString(nil, v)
+		zzsym.Assert(c27RepSameBytes(enc, appendCodecBytes(nil, []byte(v))), "string and byte string encodings differ")
+		c := exchangeCursor{data: enc}
+		got, ok := c.string()
+		zzsym.Reach("rt-string")
+		zzsym.Assert(ok && got == v && c.offset == len(enc), "string differs after round trip")
+		t := exchangeCursor{data: enc[:zzsym.Choice("cut", len(enc))]}
+		_, tok := t.string()
+		zzsym.Assert(!tok, "truncated string accepted")
+	}
+}
+
+// appendVarintForC27 encodes a record timestamp exactly as appendRecords does (through a one-record slice).
+func appendVarintForC27(v int64) []byte {
+	enc := appendRecords(nil, []ch.Record{{ServerTimestampMS: v}})
+	// layout: count(1) id(1) index(1) epoch(1) setting(1) fromUID(1) clientMsgNo(1) | timestamp | syncOnce(1) payload(1) size(1)
+	return enc[7 : len(enc)-3]
+}
+
+// ---- arbitrary bytes into the two top-level decoders ----
+
+// c27RepGarbage returns n arbitrary bytes, n in 0..max, restricted so that every slice count decoded from
+// them is either <= 3 or above the 256 maximum: each byte is in {0..3} or {0x80..0xff}, and a byte
+// >= 0x80 is never followed by a byte <= 2 (two-byte varints 128..383). The executor forks over every
+// feasible make() length, so unconstrained counts (0..256) would need 257-way forks per count; the count
+// primitives themselves are decided at full width by Harness_C27_RepPrimitives.
+func c27RepGarbage(quick, thorough int) []byte {
+	max := quick
+	if zzsym.Thorough() {
+		max = thorough
+	}
+	n := zzsym.Choice("len", max+1)
+	data := zzsym.Bytes("data", n)
+	for i := 0; i < n; i++ {
+		zzsym.Assume(data[i] <= 3 || data[i] >= 0x80)
+		if i+1 < n {
+			zzsym.Assume(!(data[i] >= 0x80 && data[i+1] <= 2))
+		}
+	}
+	return data
+}
+
+// Harness_C27_RepGarbageBatch: DecodeExchangeBatch on arbitrary bytes: a value or an error, no panic, no
+// allocation beyond the forked counts.
+func Harness_C27_RepGarbageBatch() {
+	data := c27RepGarbage(7, 12)
+	got, err := DecodeExchangeBatch(data)
+	if err != nil {
+		zzsym.Reach("garbage-batch-rejected")
+		zzsym.Assert(got.Version == 0 && got.Items == nil, "rejected garbage batch returns values")
+		return
+	}
+	zzsym.Assert(len(got.Items) >= 1 && len(got.Items) <= MaxExchangeBatchItems && got.Version == ExchangeVersion, "accepted garbage batch outside the wire contract")
+}
+
+// Harness_C27_RepGarbageBatchResult: DecodeExchangeBatchResult on arbitrary bytes.
+func Harness_C27_RepGarbageBatchResult() {
+	data := c27RepGarbage(8, 12)
+	got, err := DecodeExchangeBatchResult(data)
+	if err != nil {
+		zzsym.Reach("garbage-result-rejected")
+		zzsym.Assert(got.Version == 0 && got.Items == nil, "rejected garbage batch result returns values")
+		return
+	}
+	zzsym.Assert(len(got.Items) >= 1 && len(got.Items) <= MaxExchangeBatchItems && got.Version == ExchangeVersion, "accepted garbage batch result outside the wire contract")
 }
